@@ -331,7 +331,8 @@ fn run_check(id: &str, tier: &str) -> i32 {
                 if i % 100 == 7 {
                     let again = sc.run_one(seed_r, &env);
                     rechecked = 1;
-                    if again.digest != out.digest && !again.deadline_cut && !out.deadline_cut {
+                    // (a run with a child killed by the wall-clock watchdog has a truncated history: not comparable)
+                    if again.digest != out.digest && !again.deadline_cut && !out.deadline_cut && out.harness_errors.is_empty() && again.harness_errors.is_empty() {
                         nondet = true;
                     }
                 }
